@@ -250,6 +250,19 @@ Proof. exact ex_seq_db_ok. Qed.
 Theorem moltype_roundtrip : forall l d, mem_str l moltype_labels = true -> moltype_to_dict l = JObj d -> moltype_of_dict d = Ok l.
 Proof. exact moltype_roundtrip_lemma. Qed.
 
+(** (old-style) alphabets: motifs in order, gap motif, moltype by label *)
+Theorem alphabet_roundtrip : forall a d, mem_str (al_label a) moltype_labels = true -> alphabet_to_dict a = JObj d ->
+  alphabet_of_dict d = Ok a.
+Proof. exact alphabet_roundtrip_lemma. Qed.
+
+(** an alignment (rows in any covered state) WITH its annotation db *)
+Theorem alignment_with_annotation_db_roundtrip : forall k inf rows db d,
+  Forall aligned_ok rows -> AnnotDbProofs.tables_ok [0; 1] db -> db <> [] ->
+  alignment_db_to_dict k inf rows [0; 1] db = JObj d ->
+  exists rows' db', alignment_db_of_dict d = Ok ((k, inf, rows'), db') /\ map observe_aligned rows' = map observe_aligned rows /\
+    AnnotDbSpec.records_in_tables [0; 1] db' = AnnotDbSpec.records_in_tables [0; 1] db /\ Permutation db' db.
+Proof. exact alignment_db_roundtrip_lemma. Qed.
+
 (** * (3) the registry *)
 
 (** every class of the package that offers to_rich_dict/to_json and is resolved by the registry is resolved
@@ -288,10 +301,10 @@ Proof. exact roundtrip_via_registry_lemma. Qed.
     decoders and observation functions.  The theorems above establish this statement for the instance
     [obj]/[to_dict]/[deserialise_object]/[observe]/[obj_ok] of Model/Serial.v (sequences of both
     implementations, views, indel maps, aligned rows, alignments, trees, tables, dict arrays, NotCompleted,
-    feature maps, annotation dbs, sequences with an annotation db, moltypes); [obj_ok] is [False] for distance
+    feature maps, annotation dbs, sequences and alignments with an annotation db, moltypes, old-style alphabets); [obj_ok] is [False] for distance
     matrices (only [dmat_roundtrip_small_*], see [stmt_dmat_roundtrip]) and for profile arrays (refuted);
-    for the remaining registered types (alphabets, genetic codes, substitution models, likelihood functions,
-    app results, alignments with an annotation db, new-style collections) it is decided by the oracle
+    for the remaining registered types (new-style and joint alphabets, genetic codes, substitution models,
+    likelihood functions, app results, new-style collections) it is decided by the oracle
     "observation before = observation after" on the real code. *)
 Definition stmt_full_property (T Obs J : Type) (ok : T -> Prop) (encode : T -> J) (decode : J -> option T)
   (obs : T -> Obs) : Prop :=
